@@ -17,9 +17,31 @@ func shortKey(key string) string {
 }
 
 func (c *FnCtx) checkCallSiteAsserts(frame *Frame, st *State, in ssa.Instruction, key string) {
+	c.callSiteClauses(frame, st, in, key, false, Val{})
+}
+
+// assumeAfterCall assumes the `assume_after` clauses attached to this call site, in the state after
+// the call returned res.
+func (c *FnCtx) assumeAfterCall(frame *Frame, st *State, in ssa.Instruction, key string, res Val) {
+	c.callSiteClauses(frame, st, in, key, true, res)
+}
+
+func (c *FnCtx) hasAssumeAfter(frame *Frame) bool {
+	for _, a := range frame.contract.Asserts {
+		if a.Kind == "assume_after" {
+			return true
+		}
+	}
+	return false
+}
+
+func (c *FnCtx) callSiteClauses(frame *Frame, st *State, in ssa.Instruction, key string, after bool, res Val) {
 	short := shortKey(key)
 	var matching []*Clause
 	for _, a := range frame.contract.Asserts {
+		if (a.Kind == "assume_after") != after {
+			continue
+		}
 		callee := a.At
 		if i := strings.LastIndex(callee, "#"); i >= 0 {
 			callee = callee[:i]
@@ -52,9 +74,26 @@ func (c *FnCtx) checkCallSiteAsserts(frame *Frame, st *State, in ssa.Instruction
 			old.vars[n] = st.env[p]
 		}
 		env.old = old
+		if after {
+			// the results of the call: result (single) or result0, result1, ...
+			if res.K == KTuple {
+				for i, f := range res.F {
+					env.vars[fmt.Sprintf("result%d", i)] = f
+				}
+			} else if res.K != KInvalid {
+				env.vars["result"] = res
+				env.vars["result0"] = res
+			}
+		}
 		t, err := c.evalBool(env, a.Expr)
 		if err != nil {
 			c.errs = append(c.errs, fmt.Sprintf("%s:%d: assert %s: %v", a.File, a.Line, a.Label, err))
+			continue
+		}
+		if a.Kind == "assume_after" {
+			st.assume(t)
+			c.note("assumed after the call " + a.At + " (" + a.Label + ": " + a.Text + "): what an external callee without a usable contract did; not checked")
+			c.assertsSeen[a.Label] = true
 			continue
 		}
 		if a.Kind == "lemma_at" {
